@@ -92,6 +92,9 @@ async def explore(tier, seed, m, v):
             elif r < 0.42: q = mutate_text(rng, q); kind = "mutated"
             elif r < 0.55: q = junk_text(rng); kind = "junk"
             elif r < 0.6: variables = rng.choice([None, {}, [1, 2], "str", 5, {"v0": object}]); kind = "odd-variables"
+            elif r < 0.72 and len(ops) >= 2:
+                import re as _re
+                q = _re.sub(r"(query|mutation) Op\d+", lambda mm: mm.group(1), q); opn = None; kind = "anonymous-multi"
             if rng.random() < 0.15 and isinstance(q, str): q = q.encode("utf-8"); kind += "+bytes"
             coerced_log.clear()
             stats["evaluations"] += 1
@@ -119,6 +122,8 @@ async def explore(tier, seed, m, v):
                 doc, syntax_ok = None, False
             if not syntax_ok:
                 if resp.get("data") is not None or calls: pr.append("syntax error but data non-null or a resolver ran")
+            elif kind.startswith("anonymous-multi"):
+                if resp.get("data") is not None or calls: pr.append("several anonymous operations (ambiguous) but data non-null or a resolver ran")
             elif kind.startswith("opname") and orc.operation_of(doc, opn) is None and not (opn in ("", None) and len([d for d in doc["definitions"] if d["kind"] == "OperationDefinition"]) == 1):
                 if resp.get("data") is not None or calls: pr.append("operation selection failed but data non-null or a resolver ran")
             h = hashlib.sha256(repr((q, opn, repr(variables))).encode()).hexdigest()[:16]
